@@ -131,13 +131,16 @@ theorem incr_writes_only_incr (st : St) (op : String) (a b r : Dense)
 
 /-- **`WithIncr(r)` with two one-element operands** (finding F32, repaired; the case `incr_writes_only_incr` leaves out —
     together they cover every operand length on the raw path): every cell of `r` receives `+ (a[0] op b[0])`, `r` is
-    returned, and no cell outside `r`'s window changes — the operands are not written. No hypothesis separates the
-    three tensors: the increment may be an operand. -/
+    returned, and no existing cell outside `r`'s window changes — the operands are not written. No hypothesis separates
+    the three tensors: the increment may be an operand, or overlap one (an operand that shares memory with the increment is
+    read from a copy made first — `operandFor`, the repair of finding F10; that copy is why such an operand is asked to be
+    unmasked and why the frame speaks about the buffers that existed before the call). -/
 theorem incr_writes_only_incr_one (st : St) (op : String) (a b r : Dense)
     (hsh : shapeEq a.shape b.shape = true) (hdt : a.dt = b.dt) (hnum : a.dt ∈ numberTypes)
     (hk : a.dt ∈ kernelTypes op) (hir : r.requiresIterator = false)
     (hord : sameOrd a b = true) (hr : ReuseFits r a.shape a.dt a.ap.o.col)
     (hla : a.win.len = 1) (hlb : b.win.len = 1)
+    (hma : sharesMemory a r = true → a.mask = none) (hmb : sharesMemory b r = true → b.mask = none)
     (hA : InBuf st a.win.buf a.win.off 1) (hB : InBuf st b.win.buf b.win.off 1)
     (hR : InBuf st r.win.buf r.win.off r.win.len) :
     ∃ out x y, engArithVV st op numberTypes a b { incr := some r } = .ok out ∧ out.ret = .reuse ∧
@@ -145,34 +148,38 @@ theorem incr_writes_only_incr_one (st : St) (op : String) (a b r : Dense)
       cell st a.win.buf a.win.off = some x ∧ cell st b.win.buf b.win.off = some y ∧
       (∀ i, i < r.win.len → ∃ acc, cell st r.win.buf (r.win.off + i) = some acc ∧
         cell out.st r.win.buf (r.win.off + i) = some (accAdd acc (vecFn op a.dt x y))) ∧
-      (∀ b' k, (b' ≠ r.win.buf ∨ k < r.win.off ∨ r.win.off + r.win.len ≤ k) → cell out.st b' k = cell st b' k) := by
-  obtain ⟨st', h, w⟩ := engArithVV_incr_raw_one' st op numberTypes a b r (binOK a b hsh hdt hnum)
-    (by simpa using hk) hir hord hr hla hlb hA hB hR
-  refine ⟨_, _, _, h, rfl, rfl, w.mheap, cell_some_cellD (by simpa using hA.has 0 (by omega)),
-    cell_some_cellD (by simpa using hB.has 0 (by omega)), ?_, w.frame⟩
+      (∀ b' k, b' < st.heap.size → (b' ≠ r.win.buf ∨ k < r.win.off ∨ r.win.off + r.win.len ≤ k) →
+        cell out.st b' k = cell st b' k) := by
+  obtain ⟨st', h, hm, hv, hfr⟩ := engArithVV_incr_raw_one' st op numberTypes a b r (binOK a b hsh hdt hnum)
+    (by simpa using hk) hir hord hr hla hlb hma hmb hA hB hR
+  refine ⟨_, _, _, h, rfl, rfl, hm, cell_some_cellD (by simpa using hA.has 0 (by omega)),
+    cell_some_cellD (by simpa using hB.has 0 (by omega)), ?_, hfr⟩
   intro i hi
-  exact ⟨_, cell_some_cellD (hR.has i hi), w.val i hi⟩
+  exact ⟨_, cell_some_cellD (hR.has i hi), hv i hi⟩
 
-/-! ## reuse on the iterator path (finding F10) -/
+/-! ## reuse on the iterator path (finding F10, repaired for reuse / increment tensors) -/
 
-/-- What the model (= the generated Go code) does with a reuse tensor on the iterator path: it first
-    copies `a` into the reuse tensor along the two iterators (`storage.CopyIter`), then runs the
-    *in-place* iterator kernel on (reuse, b). -/
+/-- What the model (= the generated Go code) does with a reuse tensor on the iterator path when no operand shares memory
+    with it: it first copies `a` into the reuse tensor along the two iterators (`storage.CopyIter`), then runs the
+    *in-place* iterator kernel on (reuse, b). (An operand that does share memory with the reuse tensor is replaced by a
+    copy first: `operandFor`.) -/
 theorem reuse_iter_model (st : St) (op : String) (a b r : Dense)
     (hsh : shapeEq a.shape b.shape = true) (hdt : a.dt = b.dt) (hnum : a.dt ∈ numberTypes)
     (hk : a.dt ∈ kernelTypes op) (hia : a.requiresIterator = true)
     (hma : a.mask = none) (hmb : b.mask = none) (hmr : r.mask = none)
-    (hr : ReuseFits r a.shape a.dt a.ap.o.col) :
+    (hr : ReuseFits r a.shape a.dt a.ap.o.col)
+    (hsa : sharesMemory a r = false) (hsb : sharesMemory b r = false) :
     engArithVV st op numberTypes a b { reuse := some r } = (do
       let s ← Dense.copyIterOffsets st r.win a.win r.offsets a.offsets
       let s ← eOpIter s r.win b.win (fun x y => .app2 op x y) (r.offsets.map (·, true)) (b.offsets.map (·, true))
         (vecFn op a.dt)
       pure ⟨s, some r, .reuse⟩) :=
-  engArithVV_iter_reuse st op numberTypes a b r (binOK a b hsh hdt hnum) (by simpa using hk) hia hma hmb hmr hr
+  engArithVV_iter_reuse st op numberTypes a b r (binOK a b hsh hdt hnum) (by simpa using hk) hia hma hmb hmr hr hsa hsb
 
-/-- The expected value statement for reuse on the iterator path, parameterised by an extra side
-    condition `side` on the three tensors: at the `k`-th position of the three iterators the reuse
-    tensor receives `a[a.offsets[k]] op b[b.offsets[k]]`, and nothing outside the reuse buffer changes. -/
+/-- The value statement for reuse on the iterator path, parameterised by a side condition `side` on the three tensors:
+    at the `k`-th position of the three iterators the reuse tensor receives `a[a.offsets[k]] op b[b.offsets[k]]` — the
+    operands' elements as they were before the call — and no buffer that existed before the call, other than the reuse
+    tensor's, changes. -/
 def ReuseIterStmt (side : Dense → Dense → Dense → Prop) : Prop :=
   ∀ (st : St) (op : String) (a b r : Dense),
     shapeEq a.shape b.shape = true → a.dt = b.dt → a.dt ∈ numberTypes → a.dt ∈ kernelTypes op →
@@ -189,23 +196,35 @@ def ReuseIterStmt (side : Dense → Dense → Dense → Prop) : Prop :=
       (∀ (k : Nat) m i j, r.offsets[k]? = some m → a.offsets[k]? = some i → b.offsets[k]? = some j →
         ∃ x y, cell st a.win.buf (a.win.off + i.toNat) = some x ∧ cell st b.win.buf (b.win.off + j.toNat) = some y ∧
           cell out.st r.win.buf (r.win.off + m.toNat) = some (.app2 op x y)) ∧
-      (∀ b' k', b' ≠ r.win.buf → cell out.st b' k' = cell st b' k')
+      (∀ b' k', b' < st.heap.size → b' ≠ r.win.buf → cell out.st b' k' = cell st b' k')
 
-/-- the full statement: the reuse buffer only has to differ from `a`'s -/
-def reuse_iter_full : Prop := ReuseIterStmt (fun _ _ _ => True)
+/-- **`WithReuse(r)` on the iterator path, whatever the aliasing between `r` and the second operand** (finding F10,
+    repaired): `r` lies in another buffer than `b`, or it shares memory with `b` — in any way: it may *be* `b`, be the
+    parent of `b`, overlap it partly. (The two cases are everything but "same buffer, disjoint windows", which the
+    buffer-granular frame lemmas of `Proofs/Kernels.lean` do not separate.) Before the repair only the first case held:
+    `storage.CopyIter` wrote `a` into `r` before `b` was read. -/
+theorem reuse_iter : ReuseIterStmt (fun _ b r => r.win.buf ≠ b.win.buf ∨ sharesMemory b r = true) := by
+  intro st op a b r hsh hdt hnum hk hia hma hmb hmr hr hnra hside hlr hlb hcr hca hor hoa hob hnd hA hB hR
+  have hvals : ∀ {st' : St},
+      (∀ (k : Nat) m i j, r.offsets[k]? = some m → a.offsets[k]? = some i → b.offsets[k]? = some j →
+        cell st' r.win.buf (r.win.off + m.toNat) =
+          some (.app2 op (cellD st a.win.buf (a.win.off + i.toNat)) (cellD st b.win.buf (b.win.off + j.toNat)))) →
+      ∀ (k : Nat) m i j, r.offsets[k]? = some m → a.offsets[k]? = some i → b.offsets[k]? = some j →
+        ∃ x y, cell st a.win.buf (a.win.off + i.toNat) = some x ∧ cell st b.win.buf (b.win.off + j.toNat) = some y ∧
+          cell st' r.win.buf (r.win.off + m.toNat) = some (.app2 op x y) := by
+    intro st' hv k m i j h1 h2 h3
+    have hi := hoa i (List.mem_of_getElem? h2)
+    have hj := hob j (List.mem_of_getElem? h3)
+    exact ⟨_, _, cell_some_cellD (hA.has.at hi.1 hi.2), cell_some_cellD (hB.has.at hj.1 hj.2), hv k m i j h1 h2 h3⟩
+  rcases hside with hnrb | hsb
+  · obtain ⟨st', h, hm, hv, hfr⟩ := engArithVV_reuse_iter' st op numberTypes a b r (binOK a b hsh hdt hnum)
+      (by simpa using hk) hia hma hmb hmr hr hnra hnrb hlr hlb hcr hca hor hoa hob hnd hA hB hR
+    exact ⟨_, h, rfl, hm, hvals hv, fun b' k' _ hne => hfr b' k' hne⟩
+  · obtain ⟨st', h, hm, hv, hfr⟩ := engArithVV_reuse_iter_alias' st op numberTypes a b r (binOK a b hsh hdt hnum)
+      (by simpa using hk) hia hma hmb hmr hr hnra hsb hlr hlb hcr hca hor hoa hob hnd hA hB hR
+    exact ⟨_, h, rfl, hm, hvals hv, hfr⟩
 
-/-- Proved: when the reuse buffer differs from *both* operand buffers. -/
-theorem reuse_iter_partial : ReuseIterStmt (fun _ b r => r.win.buf ≠ b.win.buf) := by
-  intro st op a b r hsh hdt hnum hk hia hma hmb hmr hr hnra hnrb hlr hlb hcr hca hor hoa hob hnd hA hB hR
-  obtain ⟨st', h, hm, hv, hfr⟩ := engArithVV_reuse_iter' st op numberTypes a b r (binOK a b hsh hdt hnum)
-    (by simpa using hk) hia hma hmb hmr hr hnra hnrb hlr hlb hcr hca hor hoa hob hnd hA hB hR
-  refine ⟨_, h, rfl, hm, ?_, hfr⟩
-  intro k m i j h1 h2 h3
-  have hi := hoa i (List.mem_of_getElem? h2)
-  have hj := hob j (List.mem_of_getElem? h3)
-  exact ⟨_, _, cell_some_cellD (hA.has.at hi.1 hi.2), cell_some_cellD (hB.has.at hj.1 hj.2), hv k m i j h1 h2 h3⟩
-
-/-! ### the witness: `reuse ≡ b` on the iterator path computes `a op a` -/
+/-! ### the former witness: `reuse ≡ b` on the iterator path -/
 namespace W
 def st : St := { heap := #[#[.src 0 0, .src 0 1, .src 0 2, .src 0 3], #[.src 1 0, .src 1 1, .src 1 2, .src 1 3]] }
 /-- a lazily transposed 2×2 tensor in buffer 0 -/
@@ -215,36 +234,33 @@ def a : Dense := { ap := { shape := [2, 2], strides := [1, 2] }, old := some { s
 def b : Dense := { ap := { shape := [2, 2], strides := [2, 1] }, win := ⟨1, 0, 4, 4⟩, dt := "f64" }
 end W
 
-/-- Concrete run: `Add(aᵀ, b, WithReuse(b))`. Position 1 of the iterators is (reuse 1, a 2, b 1); the
-    cell receives `add a[2] a[2]` — the copy of `a` into the reuse tensor has destroyed `b`. -/
+/-- Concrete run: `Add(aᵀ, b, WithReuse(b))`. Position 1 of the iterators is (reuse 1, a 2, b 1); the cell receives
+    `add a[2] b[1]` (before the repair: `add a[2] a[2]` — the copy of `a` into the reuse tensor had destroyed `b`). -/
 theorem reuse_alias_b_witness :
     ∃ out, engArithVV W.st "add" numberTypes W.a W.b { reuse := some W.b } = .ok out ∧
-      cell out.st 1 1 = some (.app2 "add" (.src 0 2) (.src 0 2)) :=
+      cell out.st 1 1 = some (.app2 "add" (.src 0 2) (.src 1 1)) :=
   ⟨_, rfl, rfl⟩
 
-/-- **F10**: the full statement is false — with reuse ≡ b the result is `f a a`, not `f a b`. -/
-theorem reuse_alias_b_fails : ¬ reuse_iter_full := by
-  intro hfull
-  obtain ⟨out, h, _, _, hv, _⟩ := hfull W.st "add" W.a W.b W.b (by decide) rfl (by decide) (by decide) (by decide)
-    rfl rfl rfl ⟨rfl, by decide, by decide, rfl⟩ (by decide) trivial (by decide) (by decide) (by decide) (by decide)
-    (by decide) (by decide) (by decide) (by decide) ⟨_, rfl, by decide⟩ ⟨_, rfl, by decide⟩ ⟨_, rfl, by decide⟩
-  obtain ⟨out', h', hc'⟩ := reuse_alias_b_witness
-  rw [h] at h'
-  injection h' with h'
-  subst h'
-  obtain ⟨x, y, hx, hy, hxy⟩ := hv 1 1 2 1 (by decide) (by decide) (by decide)
-  have hx' : x = .src 0 2 := by
-    have : cell W.st 0 2 = some (.src 0 2) := rfl
-    rw [show W.a.win.buf = 0 from rfl, show W.a.win.off + (2 : Int).toNat = 2 from rfl, this] at hx
-    injection hx with hx; exact hx.symm
-  have hy' : y = .src 1 1 := by
-    have : cell W.st 1 1 = some (.src 1 1) := rfl
-    rw [show W.b.win.buf = 1 from rfl, show W.b.win.off + (1 : Int).toNat = 1 from rfl, this] at hy
-    injection hy with hy; exact hy.symm
-  rw [show W.b.win.buf = 1 from rfl, show W.b.win.off + (1 : Int).toNat = 1 from rfl, hc', hx', hy'] at hxy
-  injection hxy with hxy
-  injection hxy with _ _ hxy
-  cases hxy
+/-- **The reuse tensor may be the second operand** (the shape of the former finding F10): `Op(a, b, WithReuse(b))` on the
+    iterator path leaves `a[i] op b[j]` in `b`, computed from `b`'s elements before the call. -/
+theorem reuse_alias_b (st : St) (op : String) (a b : Dense)
+    (hsh : shapeEq a.shape b.shape = true) (hdt : a.dt = b.dt) (hnum : a.dt ∈ numberTypes) (hk : a.dt ∈ kernelTypes op)
+    (hia : a.requiresIterator = true) (hma : a.mask = none) (hmb : b.mask = none)
+    (hr : ReuseFits b a.shape a.dt a.ap.o.col) (hne : b.win.buf ≠ a.win.buf)
+    (hlb : b.win.len ≠ 1) (hl0 : 0 < b.win.len) (hcb : b.win.len ≤ b.win.cap) (hca : a.win.len ≤ a.win.cap)
+    (hob : ∀ j ∈ b.offsets, 0 ≤ j ∧ j < (b.win.len : Int)) (hoa : ∀ i ∈ a.offsets, 0 ≤ i ∧ i < (a.win.len : Int))
+    (hnd : b.offsets.Nodup)
+    (hA : InBuf st a.win.buf a.win.off a.win.len) (hB : InBuf st b.win.buf b.win.off b.win.len) :
+    ∃ out, engArithVV st op numberTypes a b { reuse := some b } = .ok out ∧ out.ret = .reuse ∧
+      (∀ (k : Nat) i j, a.offsets[k]? = some i → b.offsets[k]? = some j →
+        ∃ x y, cell st a.win.buf (a.win.off + i.toNat) = some x ∧ cell st b.win.buf (b.win.off + j.toNat) = some y ∧
+          cell out.st b.win.buf (b.win.off + j.toNat) = some (.app2 op x y)) := by
+  have hself : sharesMemory b b = true := by
+    simp only [sharesMemory, beq_self_eq_true, Bool.true_and, Bool.and_self, decide_eq_true_eq]
+    omega
+  obtain ⟨out, h, hret, _, hv, _⟩ := reuse_iter st op a b b hsh hdt hnum hk hia hma hmb hmb hr hne (Or.inr hself)
+    hlb hlb hcb hca hob hoa hob hnd hA hB hB
+  exact ⟨out, h, hret, fun k i j hi hj => hv k j i j hj hi hj⟩
 
 /-! ## non-vacuity -/
 namespace Ex
@@ -280,15 +296,30 @@ example := incr_writes_only_incr st "add" ta tb tr (by decide) rfl (by decide) (
 def st1 : St := { heap := #[#[.src 0 0], #[.src 1 0], #[.src 2 0]] }
 def t1 (b : Nat) : Dense := { ap := { shape := [1], strides := [1] }, win := ⟨b, 0, 1, 1⟩, dt := "c128" }
 example := incr_writes_only_incr_one st1 "add" (t1 0) (t1 1) (t1 2) (by decide) rfl (by decide) (by decide) (by decide)
-  (by decide) ⟨rfl, by decide, by decide, rfl⟩ rfl rfl ⟨_, rfl, by decide⟩ ⟨_, rfl, by decide⟩ ⟨_, rfl, by decide⟩
+  (by decide) ⟨rfl, by decide, by decide, rfl⟩ rfl rfl (fun _ => rfl) (fun _ => rfl) ⟨_, rfl, by decide⟩ ⟨_, rfl, by decide⟩
+  ⟨_, rfl, by decide⟩
+-- the increment is the second operand itself: it is read from a copy, `b += a + b`
+example := incr_writes_only_incr_one st1 "add" (t1 0) (t1 1) (t1 1) (by decide) rfl (by decide) (by decide) (by decide)
+  (by decide) ⟨rfl, by decide, by decide, rfl⟩ rfl rfl (fun _ => rfl) (fun _ => rfl) ⟨_, rfl, by decide⟩ ⟨_, rfl, by decide⟩
+  ⟨_, rfl, by decide⟩
+example : ∃ out, engArithVV st1 "add" numberTypes (t1 0) (t1 1) { incr := some (t1 1) } = .ok out ∧
+    cell out.st 0 0 = some (.src 0 0) ∧ cell out.st 1 0 = some (.app2 "add" (.src 1 0) (.app2 "add" (.src 0 0) (.src 1 0))) :=
+  ⟨_, rfl, rfl, rfl⟩
 example : ∃ out, engArithVV st1 "add" numberTypes (t1 0) (t1 1) { incr := some (t1 2) } = .ok out ∧
     cell out.st 0 0 = some (.src 0 0) ∧ cell out.st 2 0 = some (.app2 "add" (.src 2 0) (.app2 "add" (.src 0 0) (.src 1 0))) :=
   ⟨_, rfl, rfl, rfl⟩
 example := reuse_iter_model st "add" tT tb tr (by decide) rfl (by decide) (by decide) (by decide) rfl rfl rfl
-  ⟨rfl, by decide, by decide, rfl⟩
-example := reuse_iter_partial st "add" tT tb tr (by decide) rfl (by decide) (by decide) (by decide) rfl rfl rfl
-  ⟨rfl, by decide, by decide, rfl⟩ (by decide) (by decide) (by decide) (by decide) (by decide) (by decide)
+  ⟨rfl, by decide, by decide, rfl⟩ (by decide) (by decide)
+example := reuse_iter st "add" tT tb tr (by decide) rfl (by decide) (by decide) (by decide) rfl rfl rfl
+  ⟨rfl, by decide, by decide, rfl⟩ (by decide) (Or.inl (by decide)) (by decide) (by decide) (by decide) (by decide)
   (by decide) (by decide) (by decide) (by decide) inA inB inR
+-- the reuse tensor is the second operand (the former witness of F10)
+example := reuse_iter st "add" tT tb tb (by decide) rfl (by decide) (by decide) (by decide) rfl rfl rfl
+  ⟨rfl, by decide, by decide, rfl⟩ (by decide) (Or.inr (by decide)) (by decide) (by decide) (by decide) (by decide)
+  (by decide) (by decide) (by decide) (by decide) inA inB inB
+example := reuse_alias_b st "add" tT tb (by decide) rfl (by decide) (by decide) (by decide) rfl rfl
+  ⟨rfl, by decide, by decide, rfl⟩ (by decide) (by decide) (by decide) (by decide) (by decide) (by decide) (by decide)
+  (by decide) inA inB
 end Ex
 
 end TM.C07
